@@ -23,8 +23,10 @@ ObsOK(e) ==
   /\ \A p \in (DOMAIN info') \cup {Root} : Kids(info', p) # {} => p \in DOMAIN o.children
   /\ o.nsmap = NsMapOf(info')
 
-TCreate == IsEvent("create") /\ PropCreate(Req(Ev), Ev.accepted) /\ ObsOK(Ev)
-TUpdate == IsEvent("update") /\ PropUpdate(Req(Ev), Ev.accepted) /\ ObsOK(Ev)
+\* a request on which the webhook crashed (the harness recovers the panic and logs it) is neither admitted nor rejected
+NoPanic == "panic" \notin DOMAIN Ev
+TCreate == IsEvent("create") /\ NoPanic /\ PropCreate(Req(Ev), Ev.accepted) /\ ObsOK(Ev)
+TUpdate == IsEvent("update") /\ NoPanic /\ PropUpdate(Req(Ev), Ev.accepted) /\ ObsOK(Ev)
 TDelete == IsEvent("delete") /\ PropDelete(Ev.name, Ev.accepted) /\ ObsOK(Ev)
 TPods   == IsEvent("pods")   /\ SetPods(Ev.name, Ev.has) /\ ObsOK(Ev)
 
